@@ -59,6 +59,8 @@ SCENARIOS = [
     ('group-aggregates-other-arguments', 'select a1, COUNT(a3), MIN(NR), MAX(NR * 10), SUM(NR), AVG(NR), VARIANCE(NR), MEDIAN(NR), ARRAY_AGG(NR), ANY_VALUE(a3), ANY_VALUE(NR) group by a1', False),
     ('any-value-no-key', 'select ANY_VALUE(a3), ANY_VALUE(a2), COUNT(*)', False),
     ('any-value-no-key-filtered', 'select ANY_VALUE(a2 + a1), MAX(a2) where a1 != "b"', False),
+    # an expression that makes the interpreter issue a warning for every record (process-wide warning machinery: filters, showwarning, registries)
+    ('python-warning-per-record', 'select a1, __import__("warnings").warn("careful with " + a1), NR', False),
 ]
 
 
